@@ -15,10 +15,14 @@ def make_case(rng, idx):
     mode = rng.random()
     if mode < 0.08:
         item, derived = G.gen_impl_item(rng)
+        erring = rng.random() < 0.35
+        if erring:
+            # a request that does not fit the impl (other operator, unknown name, assign from assign): the impl must survive
+            derived = rng.choice([["Neg"], ["NoSuchTrait"], [rng.choice(C.BINOPS) + "x"], ["Clone"], derived + ["Whatever"]])
         attr = ", ".join(derived)
         exp = G.render(item)   # impl items carry no helper attributes of derive_ex
         return ({"id": idx, "entry": "attr", "attr": attr, "item": G.render(item), "expect_item": exp},
-                {"kind": "impl", "derived": derived, "erring": False})
+                {"kind": "impl", "derived": derived, "erring": erring})
     item, derived = G.gen_type_item(rng)
     elems, shared = G.gen_trait_args(rng, derived)
     erring = False
